@@ -11,7 +11,7 @@ use std::os::unix::io::{AsRawFd, FromRawFd};
 fn list_fds() -> Vec<(i32, u64, u64, bool, i64)> {
     // (fd, dev, ino, cloexec, f_type); uses getdents on /proc/self/fd through libc directly
     let mut out = Vec::new();
-    let path = std::ffi::CString::new(format!("/proc/{}/fd", unsafe { libc::getpid() })).unwrap();
+    let path = std::ffi::CString::new(format!("/proc/{}/task/{}/fd", unsafe { libc::getpid() }, unsafe { libc::syscall(libc::SYS_gettid) })).unwrap();
     let dir = unsafe { libc::opendir(path.as_ptr()) };
     if dir.is_null() {
         return out;
@@ -64,6 +64,7 @@ pub fn worker_main(req_fd: i32, resp_fd: i32, feat: &Value) -> ! {
     let mut line = String::new();
     #[allow(unused_assignments)]
     let mut prev_ctx: Option<Ctx> = None;
+    let mut prev_thread: Option<(std::sync::mpsc::Sender<()>, std::thread::JoinHandle<()>, Vec<i32>)> = None;
     // silence the default panic message spam but keep location for reports
     std::panic::set_hook(Box::new(|info| {
         let loc = info.location().map(|l| format!("{}:{}", l.file(), l.line())).unwrap_or_default();
@@ -86,7 +87,64 @@ pub fn worker_main(req_fd: i32, resp_fd: i32, feat: &Value) -> ! {
         // descriptors returned by the previous case stay open until the supervisor has mapped
         // their identities and taken its snapshot (it only sends the next case afterwards)
         prev_ctx = None;
-        let (out, ctx) = run_case(&case);
+        if let Some((tx, th, decoys)) = prev_thread.take() {
+            // the previous case ran in a thread with a private descriptor table: let it drop its descriptors now
+            let _ = tx.send(());
+            let _ = th.join();
+            for fd in decoys {
+                unsafe { libc::close(fd) };
+            }
+        }
+        let (out, ctx) = if case.get("in_thread").and_then(|v| v.as_bool()).unwrap_or(false) {
+            // caller context "thread with a private descriptor table": the calls are made by a thread that has left the
+            // process's descriptor table (unshare(CLONE_FILES)); meanwhile the thread-group leader holds a directory OUTSIDE the
+            // root at the descriptor numbers the thread is going to get.  /proc/self/fd/N is the leader's N, only
+            // /proc/thread-self/fd/N is the caller's.
+            // The library caches one procfs descriptor for the whole process; a process whose threads do not share one
+            // descriptor table must create it where all of them can see it.  The leader does that first (a thread-private
+            // first use would leave later callers with a stale descriptor NUMBER -- the application's mistake, not a subject).
+            {
+                let rp = std::ffi::CString::new(case.get("rootpath").and_then(|v| v.as_str()).unwrap_or("/")).unwrap();
+                let fd = unsafe { libc::open(rp.as_ptr(), libc::O_PATH | libc::O_DIRECTORY | libc::O_CLOEXEC) };
+                if fd >= 0 {
+                    let b = unsafe { std::os::unix::io::BorrowedFd::borrow_raw(fd) };
+                    let _ = pathrs::HandleRef::from_fd(b).reopen(pathrs::flags::OpenFlags::O_PATH);
+                    unsafe { libc::close(fd) };
+                }
+            }
+            let (ready_tx, ready_rx) = std::sync::mpsc::channel::<bool>();
+            let (go_tx, go_rx) = std::sync::mpsc::channel::<()>();
+            let (out_tx, out_rx) = std::sync::mpsc::channel::<Value>();
+            let (fin_tx, fin_rx) = std::sync::mpsc::channel::<()>();
+            let case2 = case.clone();
+            let th = std::thread::spawn(move || {
+                let ok = unsafe { libc::unshare(libc::CLONE_FILES) } == 0;
+                let _ = ready_tx.send(ok);
+                let _ = go_rx.recv();
+                let (out, ctx) = if ok { run_case(&case2) } else { (json!({"error": "unshare(CLONE_FILES) failed"}), None) };
+                let _ = out_tx.send(out);
+                let _ = fin_rx.recv();
+                drop(ctx);
+            });
+            let ok = ready_rx.recv().unwrap_or(false);
+            let mut decoys = Vec::new();
+            if ok {
+                let rootpath = case.get("rootpath").and_then(|v| v.as_str()).unwrap_or("");
+                let outside = std::ffi::CString::new(format!("{}/../out", rootpath)).unwrap();
+                for _ in 0..64 {
+                    let fd = unsafe { libc::open(outside.as_ptr(), libc::O_RDONLY | libc::O_DIRECTORY | libc::O_CLOEXEC) };
+                    if fd >= 0 {
+                        decoys.push(fd);
+                    }
+                }
+            }
+            let _ = go_tx.send(());
+            let out = out_rx.recv().unwrap_or(json!({"error": "thread died", "poisoned": true}));
+            prev_thread = Some((fin_tx, th, decoys));
+            (out, None)
+        } else {
+            run_case(&case)
+        };
         prev_ctx = ctx;
         let mut s = serde_json::to_string(&out).unwrap();
         s.push('\n');
